@@ -24,6 +24,20 @@ impl OsFile {
                 && forall|j: int| offset <= j < offset + buf@.len() ==> #[trigger] final(self).content()[j] == buf@[j - offset],
             final(self).durable_len() == old(self).durable_len(),
     { unimplemented!() }
+    // std::os::unix::fs::FileExt::write_at: ONE pwrite - it may write only a PREFIX of the buffer and
+    // says how many bytes it wrote (write_all_at is the loop around it)
+    #[verifier::external_body]
+    pub fn write_at(&mut self, buf: &Bytes, offset: u64) -> (r: Result<usize, VErr>)
+        requires !old(self).append_mode()
+        ensures
+            final(self).append_mode() == old(self).append_mode(),
+            forall|i: int| 0 <= i < old(self).content().len() && !(offset <= i < offset + buf@.len()) ==> #[trigger] final(self).content()[i] == old(self).content()[i],
+            final(self).content().len() >= old(self).content().len(),
+            final(self).content().len() <= old(self).content().len() || final(self).content().len() <= offset + buf@.len(),
+            r.is_ok() ==> r->Ok_0 <= buf@.len() && final(self).content().len() >= offset + r->Ok_0
+                && forall|j: int| offset <= j < offset + r->Ok_0 ==> #[trigger] final(self).content()[j] == buf@[j - offset],
+            final(self).durable_len() == old(self).durable_len(),
+    { unimplemented!() }
     #[verifier::external_body]
     pub fn sync_all(&mut self) -> (r: Result<(), VErr>)
         ensures final(self).content() == old(self).content(), final(self).append_mode() == old(self).append_mode(),
